@@ -45,6 +45,24 @@ def opDsl2Model (text cleaned : String) (tree errs : Sexp) : String :=
     | some t, some es => toString (Codec.encOutcome (Listener.transform es t))
     | _, _ => "bad-op"
 
+def decFile : Sexp → Option (Except String Merge.FileIn)
+  | .list [.atom "file", .str name, .str contents, .str cleaned, tree, errs] =>
+    let lc := String.ofList (Clean.clean contents.toList)
+    if lc != cleaned then some (.error s!"(clean-mismatch {Sexp.quote lc})")
+    else
+      match Codec.decTree tree, Codec.decErrs errs with
+      | some t, some es => some (.ok { name := name, contents := contents, outcome := Listener.transform es t })
+      | _, _ => none
+  | _ => none
+
+def opMerge (schema : String) (files : List Sexp) : String :=
+  match files.mapM decFile with
+  | none => "bad-op"
+  | some rs =>
+    match rs.mapM (fun r => r) with
+    | .error e => e
+    | .ok fs => toString (Codec.encMergeOutcome (Merge.merge fs schema))
+
 def step (line : String) : String :=
   match Sexp.parse line with
   | none => "bad-op"
@@ -52,6 +70,7 @@ def step (line : String) : String :=
   | some (.list [.atom "model2dsl", m, .atom "true"]) => opModel2Dsl m true
   | some (.list [.atom "model2dsl", m, .atom "false"]) => opModel2Dsl m false
   | some (.list [.atom "dsl2model", .str text, .str cleaned, tree, errs]) => opDsl2Model text cleaned tree errs
+  | some (.list [.atom "merge", .str schema, .list files]) => opMerge schema files
   | some (.list [.atom "clean", .str text]) => s!"(ok {Sexp.quote (String.ofList (Clean.clean text.toList))})"
   | some _ => "bad-op"
 
